@@ -516,7 +516,13 @@ def classify(c, impl):
     return labs
 
 
+_SHRINK_BUDGET = [120]      # shrink only the first few failing cases of a run (a broken tree fails hundreds of histories)
+
+
 def shrink_candidates(c):
+    if _SHRINK_BUDGET[0] <= 0:
+        return []
+    _SHRINK_BUDGET[0] -= 1
     ops = c['ops']
     out = []
     # drop one operation that creates no slot (later slot numbers stay valid)
